@@ -308,6 +308,9 @@ def tip_table(tier="quick"):
                                  oxt=True, q=[1, 0.3, 0.1, 0.2], ter=True,
                                  contact=dict(target=t, dir=[0.1 * ci, 0.05 * gi, 0.02], gap=gap, tip=True))
                         out.append(dict(desc=dict(chains=[a, b], waters=[]), opts=[]))
+                        if shuffle == 0 and ci == 0:
+                            # ... and the same clash far from the coordinate origin (large assemblies)
+                            out.append(dict(desc=dict(chains=[dict(a, shift=[1500.0, -800.0, 2500.0]), dict(b)], waters=[]), opts=[]))
     # the same clashes on an input that already carries all hydrogens, on the titration route (hydrogens are
     # stripped and rebuilt as NEW atoms; a later side-chain turn has to take them along)
     import copy as _copy
